@@ -98,6 +98,9 @@ def render_member(m, indent='    '):
 def render_decl(d, qualified_mod=None, indent='    '):
     name = d['name'] if qualified_mod is None else qname(qualified_mod, d['name'])
     k = d['kind']
+    if k == 'raw':
+        # hand-written declaration (gen/families.py): SDL text with a {NAME} placeholder
+        return indent + d['text'].replace('{NAME}', name).replace('\n', '\n' + indent) + ';'
     if k == 'type':
         head = ('abstract ' if d.get('abstract') else '') + 'type ' + name
         if d.get('bases'):
